@@ -254,7 +254,7 @@ def _writer_agreement(chk: Check, schema: Schema, pf: ProtoFlow, msgs: List[str]
             chk.ob("R02.2", key + ":kind-enum-value", k_ok, w.loc,
                    "%s.%s is an enum field: it must be assigned <member>.value, got %s"
                    % (w.msg, w.field, unparse(val)[:50]), 2)
-    chk.floor("R02.2", "field writes", n, 60)
+    chk.floor("R02.2", "field writes", n, 42)
     # ByteInterval.address written only where address is known not None
     for w in pf.written("ByteInterval", "address"):
         ok, why = _guarded_not_none(w, "address")
@@ -563,7 +563,7 @@ def _reader_agreement(chk: Check, schema: Schema, pf: ProtoFlow, msgs: List[str]
             chk.ob("R02.3", "%s.%s:flows-to(%s)" % (m, fname, want), ok, reads[0].loc,
                    "%s.%s is read into %s; it must reach the constructor keyword / attribute '%s'"
                    % (m, fname, sorted(sinks) or "nothing recognisable", want), 3 if sinks else 0)
-    chk.floor("R02.3", "fields with a resolved read", n, 55)
+    chk.floor("R02.3", "fields with a resolved read", n, 38)
     # kind: message-typed values handed to K._from_protobuf must be K's message
     for r in pf.reads:
         par = getattr(r.node, "_parent", None)
@@ -913,6 +913,9 @@ def _write_paths(chk: Check, schema: Schema, pf: ProtoFlow, msgs: List[str]) -> 
                 if i.kind != "test" or i.ast is None:
                     continue
                 tps = _paths_of(i.ast)
+                # a test on a local that stands for an attribute is a test on that attribute
+                for nm_ in [x.id for x in ast.walk(i.ast) if isinstance(x, ast.Name) and x.id in al]:
+                    tps |= _paths_of(al[nm_])
                 tps = {p for p in tps if p not in (("self",), ("cls",), ("isinstance",))}
                 related = any(any(sp[:len(tp)] == tp for sp in sources) for tp in tps if len(tp) >= 1
                               and not (len(tp) == 1 and tp[0] in ("self",)))
@@ -928,7 +931,7 @@ def _write_paths(chk: Check, schema: Schema, pf: ProtoFlow, msgs: List[str]) -> 
                    "%s writes %s.%s only on some paths: on the path %s the field keeps its default "
                    "although nothing about its source value was tested"
                    % (fq, m, gname, " -> ".join(cfg.describe_path(wit)) if wit else "-"), 3)
-    chk.floor("R02.1", "field groups checked for path coverage", n, 55)
+    chk.floor("R02.1", "field groups checked for path coverage", n, 38)
 
 
 def _iter_source_ok(it: ast.AST, want: str, al: Dict[str, ast.AST]) -> Tuple[bool, str]:
@@ -998,7 +1001,7 @@ def _whole_collections(chk: Check, schema: Schema, pf: ProtoFlow, msgs: List[str
                "%s.%s must be filled from the whole of <obj>.%s; %s iterates %s%s: members outside that "
                "selection are silently not written" % (w.msg, w.field, want, w.f.qualname,
                                                         why or unparse(it)[:60], " with a filter" if flt else ""), 3)
-    chk.floor("R02.2", "repeated/map field writers", n, 9)
+    chk.floor("R02.2", "repeated/map field writers", n, 6)
 
 
 def _fresh_objects(chk: Check, schema: Schema, pf: ProtoFlow) -> None:
